@@ -41,7 +41,7 @@ fn make(mw: &str, kv: &Kv) -> Option<Box<dyn Mw>> {
         "timelimiter" => Some(Box::new(mw_timelimiter::Adapter::new(kv))),
         "stack" => Some(Box::new(mw_stack::Adapter::new(kv))),
         "limit" => Some(Box::new(mw_limit::Adapter::new(kv))),
-        "adaptive" => Some(Box::new(mw_adaptive::Adapter::new(kv))),
+        "adaptive" => Some(mw_adaptive::make(kv)),
         _ => None,
     }
 }
@@ -108,9 +108,12 @@ fn main() {
             }
             ops.push(l.to_string());
         }
-        writeln!(out, "case {}", n).unwrap();
-        // everything up to here is out of the process before the case runs (the watchdog cannot flush this buffer)
-        out.flush().unwrap();
+        {
+            let _io = Busy::new();
+            writeln!(out, "case {}", n).unwrap();
+            // everything up to here is out of the process before the case runs (the watchdog cannot flush this buffer)
+            out.flush().unwrap();
+        }
         watch_case(&n);
         begin_case();
         let header = line.to_string();
@@ -128,6 +131,9 @@ fn main() {
             });
             drop(rt);
         }));
+        // writing the case's log and its annotated form (the value-level traces make that file large) can stall on a loaded
+        // machine (a full pipe, dirty-page throttling): that is not an operation of the middleware making no progress
+        let _io = Busy::new();
         for l in take_log() {
             writeln!(out, "{}", l).unwrap();
         }
